@@ -540,6 +540,22 @@ func c13a(c *Ctx) {
 				c.Check(paren, key, pos, "raw literal only for a parenthesis token", "token literal "+pretty(t)+" is accumulated without constant substitution")
 				return
 			}
+			// anything else that is accumulated is itself an accumulated value being closed (the
+			// joined parts of an argument), never a processed copy of a literal
+			var leaves []ssa.Value
+			phiLeaves(v, map[ssa.Value]bool{}, &leaves)
+			for _, lf := range leaves {
+				lt := c.term(fn, lf)
+				if _, isC := strConst(lf); isC {
+					continue
+				}
+				okOther := strings.HasPrefix(lt, "strings.Join(") || strings.HasPrefix(lt, "(*strings.Builder).String(") || strings.HasPrefix(lt, "$")
+				if !okOther {
+					n++
+					c.Bad(key+"/other", pos, "the value "+pretty(lt)+" is accumulated: it is neither a substituted token literal, a parenthesis, nor a joined value being closed (a processed copy of a literal escapes the substitution rules)")
+					return
+				}
+			}
 		}
 		instrs(fn, func(in ssa.Instruction) {
 			call, ok := in.(*ssa.Call)
@@ -1307,6 +1323,47 @@ func c14d(c *Ctx) {
 			c.Check(!twice, fmt.Sprintf("%s/appended-once#%d", fn.Name(), i), c.W.Pos(ap.Pos()), "a token is appended once before the next one is read", "after a token was appended another append of the current token is reachable without the parser having advanced: the item would be listed twice")
 		}
 		c.Check(okIdent, fn.Name()+"/ident-appended", c.W.Pos(acc.Pos()), "an identifier token is appended to the list", "identifier tokens are not appended to the list")
+		// ... every one of them: the list comes round unchanged only when the token was a comma
+		// (an identifier — or a nested poryswitch — that is consumed without being listed is lost)
+		{
+			body := loopBody(head)
+			bad := ""
+			seenP := map[*ssa.Phi]bool{}
+			var walk func(p *ssa.Phi, top bool)
+			walk = func(p *ssa.Phi, top bool) {
+				if seenP[p] {
+					return
+				}
+				seenP[p] = true
+				for i, e := range p.Edges {
+					pred := p.Block().Preds[i]
+					if top && !head.Dominates(pred) {
+						continue
+					}
+					if q, isPhi := e.(*ssa.Phi); isPhi && q != acc && body[q.Block()] {
+						if isLoopHeader(q.Block()) {
+							continue // the expansion loop of `step * n` (n >= 1: C14.a)
+						}
+						walk(q, false)
+						continue
+					}
+					if e != ssa.Value(acc) {
+						continue
+					}
+					comma := false
+					for _, l := range c.mustLits(fn, pred) {
+						if strings.HasPrefix(l, "+($0.curToken") && strings.HasSuffix(l, `.Type == ",")`) {
+							comma = true
+						}
+					}
+					if !comma {
+						bad = c.nearPos(pred.Instrs[len(pred.Instrs)-1])
+					}
+				}
+			}
+			walk(acc, true)
+			c.Check(bad == "", fn.Name()+"/every-item-listed", c.W.Pos(acc.Pos()), "a turn of the list loop leaves the list unchanged only for a comma", "a turn of the list loop can consume a token that is not a comma and leave the list unchanged (through "+bad+"): an item that was written would be missing")
+		}
 	}
 }
 
@@ -1590,14 +1647,12 @@ func c13e(c *Ctx) {
 				continue
 			}
 			instrs(fn, func(in ssa.Instruction) {
-				st, ok := in.(*ssa.Store)
-				if !ok {
-					return
-				}
-				bo, ok := st.Val.(*ssa.BinOp)
+				// the wrapping itself, wherever its result goes (stored at once, or kept in a local first)
+				bo, ok := in.(*ssa.BinOp)
 				if !ok || bo.Op != token.ADD {
 					return
 				}
+				st := bo
 				// ("( " + X) + " )"
 				inner, ok := bo.X.(*ssa.BinOp)
 				closeP, isC := strConst(bo.Y)
@@ -1618,7 +1673,7 @@ func c13e(c *Ctx) {
 				if ld, ok := x.(*ssa.UnOp); ok {
 					// the value re-read from the field it was just stored in
 					for _, st2 := range storesToField(fn, "ast", "OperatorExpression", "ComparisonValue") {
-						if st2 != st && instrDominates(st2, ld) {
+						if instrDominates(st2, ld) {
 							defBlock = st2.Block()
 							xt = c.term(fn, st2.Val)
 						}
